@@ -15,8 +15,14 @@ TIDS = ["None", "Discriminant", "type", "Err", "Error", "Iterator", "fn", "Outpu
 LIDS = ["idx", "f", "s", "v", "val", "value", "key", "i", "n", "item", "other", "index"]      # (not x, d, e: the drivers bind values of the enum type under those names)
 
 
+class _Ids(list):
+    """an identifier list that goes on (`Var12`, `Var13`, ...) when a definition has more variants than names"""
+    def __getitem__(self, i):
+        return list.__getitem__(self, i) if i < len(self) else "Var%d" % i
+
+
 def ids_for(did):
-    return TIDS if did % 5 == 4 else LIDS if did % 5 == 2 else IDS
+    return _Ids(TIDS if did % 5 == 4 else LIDS if did % 5 == 2 else IDS)
 
 
 def shape(rng, did, n, mask, kinds="mixed", generics="none", style="none"):
